@@ -182,15 +182,15 @@ template <class T> std::string dyList(const std::vector<T>& v) {
 template <class T> struct TInfo;
 template <> struct TInfo<float> {
   static constexpr char code = 'f';
-  static constexpr int kminCF = -40, kmaxCF = 55, kminL = -100, kmaxL = 100, kminNS = -60, kmaxNS = 60;
+  static constexpr int kminCF = -120, kmaxCF = 120, kminL = -120, kmaxL = 120, kminNS = -100, kmaxNS = 100;
 };
 template <> struct TInfo<double> {
   static constexpr char code = 'd';
-  static constexpr int kminCF = -450, kmaxCF = 490, kminL = -498, kmaxL = 498, kminNS = -300, kmaxNS = 300;
+  static constexpr int kminCF = -498, kmaxCF = 498, kminL = -498, kmaxL = 498, kminNS = -498, kmaxNS = 498;
 };
 template <> struct TInfo<long double> {
   static constexpr char code = 'l';
-  static constexpr int kminCF = -498, kmaxCF = 498, kminL = -498, kmaxL = 498, kminNS = -300, kmaxNS = 300;
+  static constexpr int kminCF = -498, kmaxCF = 498, kminL = -498, kmaxL = 498, kminNS = -498, kmaxNS = 498;
 };
 
 // machine epsilon that the result can be expected to have: LAPACK works in double for long double input
@@ -464,8 +464,8 @@ Result execEv2x(const std::vector<std::string>& w) {
   // independent cross-check (Vieta) within the eps-class tolerance: l0+l1 = tr, l0*l1 = det, l0 <= l1.  Bit-exactness
   // is the business of the correspondence with the model, not of the property.
   Q sc = scalbnq((Q)1, e);
-  Q tr = (Q)(a + d) * sc, det = ((Q)a * (Q)d - (Q)b * (Q)b) * sc * sc;
-  Q nrm = (Q)(std::labs(a) + std::labs(b) + std::labs(d)) * sc;
+  Q tr = ((Q)a + (Q)d) * sc, det = ((Q)a * (Q)d - (Q)b * (Q)b) * sc * sc;
+  Q nrm = (qabs((Q)a) + qabs((Q)b) + qabs((Q)d)) * sc;
   Q tolV = C_EPS * effEps<T>(false);
   for (auto* ww : {&o.w1, &o.w2}) {
     Q l0 = (*ww)[0], l1 = (*ww)[1];
@@ -1068,36 +1068,36 @@ static const std::vector<Triple>& triples() {
 
 template <class T>
 std::string genEv2x(Rng& rng) {
-  // [[c+m, b],[b, c-m]] * mult : p = c, p2 = m, q = m^2+b^2 = r^2 -> eigenvalues c -+ r, everything exact
+  // [[c+m, b],[b, c-m]] * 2^e with m^2+b^2 = r^2 and |c|+|m|+|b| = 2^S: the max norm is a power of two, so the
+  // max-norm preconditioning of the code is exact; on the scaled matrix p = c/2^S, p2 = m/2^S, q = (r/2^S)^2, hence
+  // eigenvalues (c -+ r) * 2^e, everything exact in floating point
   Triple t = rng.pick(triples());
   long mult = rng.coin() ? 1 : (long)rng.range(1, 6);
   long m = t.m * mult * (rng.coin() ? 1 : -1), b = t.b * mult * (rng.coin() ? 1 : -1);
-  long c;
-  switch (rng.below(5)) {
-    case 0: c = 0; break;
-    case 1: c = t.r * mult; break;       // singular: one eigenvalue zero
-    case 2: c = -t.r * mult; break;
-    default: c = rng.range(-300, 300); break;
+  long sum = std::labs(m) + std::labs(b);
+  int digits = std::numeric_limits<T>::digits;  // 24 / 53 / 64
+  int smax = std::min(digits - 2, 61);
+  int smin = 0;
+  while ((1L << smin) < sum) ++smin;
+  int S;
+  if (rng.coin(1, 3)) {
+    // near-identity: the off-diagonal part is about 2^-S relative, around the identity threshold 64 eps = 2^(7-digits)
+    S = digits - 7 - 4 + (int)rng.below(9);
+    stat("ev2x_near_identity");
+  } else {
+    S = smin + (int)rng.below(12);
   }
+  S = std::max(smin, std::min(S, smax));
+  long c = ((1L << S) - sum) * (rng.coin(1, 4) ? -1 : 1);
   long a = c + m, d = c - m;
-  int emin = std::is_same_v<T, float> ? -50 : -480, emax = std::is_same_v<T, float> ? 45 : 480;
+  int emin = std::is_same_v<T, float> ? -120 : -500, emax = std::is_same_v<T, float> ? 120 : 500;
   int e;
   switch (rng.below(5)) {
     case 0: e = 0; break;
     case 1: e = emin + (int)rng.below(6); break;
-    case 2: e = emax - (int)rng.below(6); break;
-    case 3: e = -1; break;  // half-integers
-    default: e = (int)rng.range(emin, emax); break;
-  }
-  // near-identity matrices around the identity threshold: [[2^s+m', b'],[b', 2^s-m']] with tiny m', b'
-  if (rng.coin(1, 4)) {
-    int digits = std::numeric_limits<T>::digits;  // 24 / 53 / 64
-    int s = digits - 1 - (int)rng.below(12);      // off-diagonal part is 2^-s relative: around 64*eps = 2^(7-digits)
-    if (s > 40) s = 40 + (int)rng.below(3) - 1;   // keep squares exact: (c*2^s)^2 is never formed, only m'^2+b'^2
-    long big = 1L << std::min(s, 50);
-    a = big + m; d = big - m;
-    if (std::fabs((double)a) >= std::ldexp(1.0, digits) || std::fabs((double)d) >= std::ldexp(1.0, digits)) { a = c + m; d = c - m; }
-    else stat("ev2x_near_identity");
+    case 2: e = emax - S - (int)rng.below(6); break;
+    case 3: e = -S; break;  // norm one
+    default: e = (int)rng.range(emin, emax - S); break;
   }
   return std::string("ev2x ") + TInfo<T>::code + " " + std::to_string(a) + " " + std::to_string(b) + " " + std::to_string(d) + " " + std::to_string(e);
 }
